@@ -1,6 +1,7 @@
 package props
 
 import (
+	"bytes"
 	"encoding/binary"
 	"encoding/json"
 	"fmt"
@@ -1187,6 +1188,303 @@ func c03PullRace(c *fw.Ctx, i int, pk string) {
 	e.finish(all)
 }
 
+
+// ---- a TCP relay whose server→client direction can be held back (orders an RTSP relay pull's
+// DESCRIBE reply against a publisher's arrival without touching lal)
+type gateProxy struct {
+	ln      net.Listener
+	Addr    string
+	mu      sync.Mutex
+	gate    chan struct{} // closed = open
+	sawReq  chan struct{} // closed once the trigger request passed
+	trigger []byte
+	once    sync.Once
+	conns   []net.Conn
+}
+
+func newGateProxy(target string, trigger string) (*gateProxy, error) {
+	ln, err := net.Listen("tcp", "127.0.0.1:0")
+	if err != nil {
+		return nil, err
+	}
+	g := &gateProxy{ln: ln, Addr: ln.Addr().String(), gate: make(chan struct{}), sawReq: make(chan struct{}), trigger: []byte(trigger)}
+	go func() {
+		for {
+			c, err := ln.Accept()
+			if err != nil {
+				return
+			}
+			u, err := net.DialTimeout("tcp", target, 2*time.Second)
+			if err != nil {
+				c.Close()
+				continue
+			}
+			g.mu.Lock()
+			g.conns = append(g.conns, c, u)
+			g.mu.Unlock()
+			held := make(chan struct{}) // closed when replies must wait for the gate
+			go func() { // client → server
+				defer u.Close()
+				buf := make([]byte, 8192)
+				var seen []byte
+				for {
+					n, err := c.Read(buf)
+					if n > 0 {
+						seen = append(seen, buf[:n]...)
+						if bytes.Contains(seen, g.trigger) {
+							select {
+							case <-held:
+							default:
+								close(held)
+							}
+							g.once.Do(func() { close(g.sawReq) })
+						}
+						if _, werr := u.Write(buf[:n]); werr != nil {
+							return
+						}
+					}
+					if err != nil {
+						return
+					}
+				}
+			}()
+			go func() { // server → client
+				defer c.Close()
+				buf := make([]byte, 8192)
+				for {
+					n, err := u.Read(buf)
+					if n > 0 {
+						select {
+						case <-held:
+							<-g.gate
+						default:
+						}
+						if _, werr := c.Write(buf[:n]); werr != nil {
+							return
+						}
+					}
+					if err != nil {
+						return
+					}
+				}
+			}()
+		}
+	}()
+	return g, nil
+}
+
+func (g *gateProxy) Release() {
+	g.mu.Lock()
+	select {
+	case <-g.gate:
+	default:
+		close(g.gate)
+	}
+	g.mu.Unlock()
+}
+
+func (g *gateProxy) Close() {
+	g.Release()
+	g.ln.Close()
+	g.mu.Lock()
+	for _, c := range g.conns {
+		c.Close()
+	}
+	g.mu.Unlock()
+}
+
+const c03SrcInc = 90 // incarnation id of the origin stream an RTSP relay pull fetches
+
+// scenario 2d: an RTSP relay pull (origin: lal's own RTSP server serving another stream, reached
+// through a relay that holds back the DESCRIBE reply) is in flight while a publisher arrives and is
+// accepted; then the origin's reply arrives. The attempt must end as refused (one pull_stop, no
+// pull_start) and nothing of it may reach the stream: no frame, no sequence header built from the
+// origin's parameter sets, and RTSP subscribers joining afterwards are described the accepted
+// publisher's stream, not the origin's.
+func c03RtspPullRace(c *fw.Ctx, i int, pk string) {
+	e := c03Start(c, i)
+	if e == nil {
+		return
+	}
+	defer e.stop()
+	mode := i / 7 % 2
+	e.desc = fmt.Sprintf("rtsp-pull-race publisher=%s rtsp_mode=%d", pk, mode)
+	c.Describe("%s", e.desc)
+	c.Cell("rtsp-pull-in-flight/%s-arrives", pk)
+	s := e.s
+	srcName := e.name + "src"
+	sh := gen.Shape{Name: "c03src", Video: true, Audio: true, Gops: 200, GopLen: c03GopLen, AudioPerVid: 1, Sizes: []int{100, 300, 700}}
+	srcMsgs := gen.Build(c.SubRng("src"), c03SrcInc, sh)
+	sp, err := ref.StartRtmpPublisher(s.RtmpAddr(), "live", srcName, 3*time.Second)
+	if err != nil {
+		c.Inconclusive("origin publisher: %v", err)
+		return
+	}
+	stopSrc := make(chan struct{})
+	srcDone := make(chan struct{})
+	go func() {
+		defer close(srcDone)
+		for n, m := range srcMsgs {
+			if n > 3+2*c03GopLen {
+				select {
+				case <-stopSrc:
+					return
+				case <-time.After(40 * time.Millisecond):
+				}
+			}
+			if sp.RC.Send(ref.RtmpMsg{Csid: csidFor(m.Type), TypeID: m.Type, StreamID: sp.Msid, Ts: m.Ts, Payload: m.Payload}, 0) != nil {
+				return
+			}
+		}
+	}()
+	endSrc := func() {
+		select {
+		case <-stopSrc:
+		default:
+			close(stopSrc)
+		}
+		<-srcDone
+		sp.Close()
+	}
+	defer endSrc()
+	gp, err := newGateProxy(s.RtspAddr(), "DESCRIBE ")
+	if err != nil {
+		c.Inconclusive("relay: %v", err)
+		return
+	}
+	defer gp.Close()
+	p := e.newActor("pull")
+	p.stubIdx = -1
+	p.from = s.Notify.Len()
+	all := []*c03Actor{p}
+	callPull := e.now()
+	b, _ := json.Marshal(map[string]interface{}{"url": "rtsp://" + gp.Addr + "/live/" + srcName, "stream_name": e.name, "pull_retry_num": 0, "auto_stop_pull_after_no_out_ms": -1, "pull_timeout_ms": 20000, "rtsp_mode": mode})
+	_, resp, err := srv.HttpPostJson(s.ApiAddr(), "/api/ctrl/start_relay_pull", string(b), 3*time.Second)
+	var v struct {
+		ErrorCode int `json:"error_code"`
+		Data      struct {
+			SessionId string `json:"session_id"`
+		} `json:"data"`
+	}
+	json.Unmarshal(resp, &v)
+	if err != nil || v.ErrorCode != 0 || v.Data.SessionId == "" {
+		c.Inconclusive("rtsp pull attempt did not start: %v %s", err, trunc(string(resp), 160))
+		return
+	}
+	p.sid = v.Data.SessionId
+	e.logf("%s rtsp pull attempt started sid=%s", p, p.sid)
+	select {
+	case <-gp.sawReq:
+	case <-time.After(4 * time.Second):
+		c.Inconclusive("the pull attempt never sent DESCRIBE\n%s", e.trace())
+		return
+	}
+	e.logf("DESCRIBE reply is being held back")
+	h := e.newActor(pk)
+	all = append(all, h)
+	h.acquire(false)
+	if !(h.decided && h.accepted) {
+		c.Inconclusive("the publisher arriving while the rtsp pull was in flight was not accepted (decided=%v)\n%s", h.decided, e.trace())
+		gp.Release()
+		p.awaitPull(callPull)
+		e.disablePullIfIdle(all)
+		endSrc()
+		e.finish(all)
+		return
+	}
+	h.burst()
+	e.checkDelivered(h, all, "publisher accepted while an rtsp pull was in flight")
+	hookBefore := -1
+	if hs := e.hook.Latest(e.name); hs != nil {
+		hookBefore = hs.Stops()
+	}
+	nBefore := e.witR.Hist.Len()
+	gp.Release()
+	e.logf("DESCRIBE reply released")
+	p.awaitPull(callPull)
+	e.disablePullIfIdle(all)
+	if p.decided && p.accepted {
+		c.Violate("two-inputs/rtsp-pull-attached", fmt.Sprintf("the overtaken rtsp pull attempt attached (pull_start) although %s is the accepted input\n%s\n%s", h, e.desc, e.trace()), nil)
+	}
+	time.Sleep(150 * time.Millisecond)
+	h.burst()
+	e.checkDelivered(h, all, "after the overtaken rtsp pull attempt was answered")
+	if hs := e.hook.Latest(e.name); hs != nil && hookBefore >= 0 && hs.Stops() != hookBefore {
+		c.Violate("pipeline-torn-down", fmt.Sprintf("the accepted publisher's stream hook was told to stop (%d→%d) when the overtaken rtsp pull attempt ended\n%s\n%s", hookBefore, hs.Stops(), e.desc, e.trace()), nil)
+	}
+	e.statCheck(h, "after the overtaken rtsp pull attempt was answered")
+	// nothing of the origin stream may have reached the witnesses: frames …
+	for _, kind := range []string{"rtmp", "flv"} {
+		for _, t := range e.witness(kind, map[int]bool{c03SrcInc: true}) {
+			if t.Inc == c03SrcInc {
+				c.Violate("forwarded-refused/rtsp-pull/"+kind, fmt.Sprintf("the %s witness received a frame of the origin stream of the refused rtsp pull (unit %d)\n%s\n%s", kind, t.Unit, e.desc, e.trace()), nil)
+				break
+			}
+		}
+	}
+	// … and sequence headers built from the origin's parameter sets
+	msgs := e.witR.Hist.Snapshot()
+	for k := nBefore; k < len(msgs); k++ {
+		m := msgs[k]
+		if (m.TypeID == 9 && len(m.Payload) > 1 && m.Payload[0] == 0x17 && m.Payload[1] == 0) || (m.TypeID == 8 && len(m.Payload) > 1 && m.Payload[0]>>4 == 10 && m.Payload[1] == 0) {
+			for _, t := range gen.FindTags(m.Payload) {
+				if t.Inc == c03SrcInc {
+					c.Violate("forwarded-refused/rtsp-pull/seq-header", fmt.Sprintf("after the refused rtsp pull was answered the rtmp witness received a type-%d sequence header built from the origin's configuration (tag of incarnation %d)\n%s\n%s", m.TypeID, t.Inc, e.desc, e.trace()), nil)
+				}
+			}
+		}
+	}
+	// an RTSP subscriber joining now is described the accepted publisher's stream
+	if rc, err := ref.DialRtsp(s.RtspAddr(), 3*time.Second); err == nil {
+		sdp, err := rc.Play("rtsp://"+s.RtspAddr()+"/live/"+e.name, false, 4*time.Second)
+		if err == nil {
+			own, foreign := 0, 0
+			for _, t := range gen.FindTags([]byte(sdpParamBytes(sdp))) {
+				if t.Inc == c03SrcInc {
+					foreign++
+				} else if t.Inc == h.id {
+					own++
+				}
+			}
+			c.Count("rtsp_joiner_sdp_checked", 1)
+			if foreign > 0 {
+				c.Violate("disturbed/sdp-of-refused-rtsp-pull", fmt.Sprintf("an RTSP subscriber joining %s after the refused rtsp pull was answered is described the ORIGIN's parameter sets (%d tags of the origin, %d of the accepted publisher %s) - the refused input replaced the stream description\n%s\n%s", e.name, foreign, own, h, e.desc, e.trace()), nil)
+			}
+		} else {
+			e.logf("rtsp joiner: %v", err)
+		}
+		rc.Close()
+	}
+	// the slot is still taken
+	x := e.newActor("rtmp")
+	all = append(all, x)
+	x.acquire(false)
+	h.burst()
+	e.checkDelivered(h, all, "after a further publisher arrived")
+	x.closeConn()
+	e.checkForeign(all)
+	h.release("close")
+	endSrc()
+	time.Sleep(300 * time.Millisecond)
+	e.finish(all)
+}
+
+// sdpParamBytes: the decoded parameter sets / configs of every media section, concatenated.
+func sdpParamBytes(sdp ref.Sdp) string {
+	var out []byte
+	for _, m := range sdp.Media {
+		if sets, err := m.H264ParamSets(); err == nil {
+			for _, x := range sets {
+				out = append(out, x...)
+			}
+		}
+		if cfg, err := m.AacConfig(); err == nil {
+			out = append(out, cfg...)
+		}
+	}
+	return string(out)
+}
+
 // scenario 2b: a pull attempt stays in flight across several of lal's 1 s ticks while NOBODY else is
 // on the name (the attempt is the only thing that keeps the stream's state alive); it then attaches.
 // From then on it is the accepted input like any other: witnesses joining get its media, the stat
@@ -1545,6 +1843,9 @@ func init() {
 	for _, p := range []string{"rtmp", "rtsp"} {
 		cat = append(cat, sc{"pullalone", p, ""})
 	}
+	for _, p := range []string{"rtmp", "rtsp", "customize"} {
+		cat = append(cat, sc{"rtsppullrace", p, ""})
+	}
 	cat = append(cat, sc{"rtppub-busy", "udp", ""}, sc{"rtppub-busy", "tcp", ""})
 	for _, h := range []string{"rtmp", "rtsp", "customize", "pull"} {
 		cat = append(cat, sc{"subs", h, ""})
@@ -1562,7 +1863,7 @@ func init() {
 			return nCat + 43
 		},
 		CaseTimeout: func(string) time.Duration { return 4 * time.Minute },
-		Rule:        "whole-server runs on one stream name with an RTMP and an HTTP-FLV witness attached throughout and HLS, FLV recording and the stream hook on. Inputs of five kinds (RTMP publisher, RTSP publisher, customize publisher, start_rtp_pub, relay pull from a scripted stub origin) publish frames tagged with their own id. Catalogue: 5×5 holder × intruder matrix (holder accepted and publishing; 1–2 intruders arrive, try to publish, leave; holder leaves by close or kick; the intruder kind arrives again and must now be admitted), a pull attempt kept in flight by the origin while each publisher kind arrives and is then overtaken, a pull attempt kept in flight across ≥3 of lal's ticks with nobody else on the name which then attaches and must be the one input (witnesses joining get its media, stat lists it, a publisher is refused), start_rtp_pub on a UDP / TCP port that is in use (failure reported → nothing attached, next publisher admitted), foreign subscribers of four protocols joining/leaving/kicked plus kicks of stale, made-up and wrong-family ids; plus seeded concurrent races of 2–4 actors released by a barrier over 3 rounds. Oracles: (1) porcupine linearizability of Acquire/Release operations (call = request sent, return = outcome observed via notification, reply or connection close) against a one-register model; (2) after every foreign event the holder publishes another GOP and both witnesses' histories restricted to the holder's tag must be an exact prefix of what it handed over, complete up to the depacketiser's slack; no unit of a refused input ever reaches a witness; the holder's stream hook is not told to stop; (3) notification pairing per session id (≤1 start, ≤1 stop, stop after start, no stop without start except for pull attempts, every started session stopped once all connections are closed); (4) stat API pub/pull session id = the attached input, listed subscribers were admitted. cell = scenario × kinds.",
+		Rule:        "whole-server runs on one stream name with an RTMP and an HTTP-FLV witness attached throughout and HLS, FLV recording and the stream hook on. Inputs of five kinds (RTMP publisher, RTSP publisher, customize publisher, start_rtp_pub, relay pull from a scripted stub origin) publish frames tagged with their own id. Catalogue: 5×5 holder × intruder matrix (holder accepted and publishing; 1–2 intruders arrive, try to publish, leave; holder leaves by close or kick; the intruder kind arrives again and must now be admitted), a pull attempt kept in flight by the origin while each publisher kind arrives and is then overtaken, an RTSP relay pull (origin = lal's own RTSP server serving another stream, behind a TCP relay that holds back the DESCRIBE reply) overtaken by an RTMP / RTSP / customize publisher: the attempt must end refused and neither frames, nor sequence headers built from the origin's parameter sets, nor the origin's SDP (RTSP subscriber joining afterwards) may reach the stream, a pull attempt kept in flight across ≥3 of lal's ticks with nobody else on the name which then attaches and must be the one input (witnesses joining get its media, stat lists it, a publisher is refused), start_rtp_pub on a UDP / TCP port that is in use (failure reported → nothing attached, next publisher admitted), foreign subscribers of four protocols joining/leaving/kicked plus kicks of stale, made-up and wrong-family ids; plus seeded concurrent races of 2–4 actors released by a barrier over 3 rounds. Oracles: (1) porcupine linearizability of Acquire/Release operations (call = request sent, return = outcome observed via notification, reply or connection close) against a one-register model; (2) after every foreign event the holder publishes another GOP and both witnesses' histories restricted to the holder's tag must be an exact prefix of what it handed over, complete up to the depacketiser's slack; no unit of a refused input ever reaches a witness; the holder's stream hook is not told to stop; (3) notification pairing per session id (≤1 start, ≤1 stop, stop after start, no stop without start except for pull attempts, every started session stopped once all connections are closed); (4) stat API pub/pull session id = the attached input, listed subscribers were admitted. cell = scenario × kinds.",
 		Assumptions: []string{"an operation whose outcome is not observed within its bound makes the case inconclusive (never a violation)", "start_rtp_pub inputs publish no media (admission and stat only)"},
 		MinCells:    10,
 		Run: func(c *fw.Ctx, i int) {
@@ -1575,6 +1876,8 @@ func init() {
 					c03PullRace(c, i, x.a)
 				case "pullalone":
 					c03PullAlone(c, i, x.a)
+				case "rtsppullrace":
+					c03RtspPullRace(c, i, x.a)
 				case "rtppub-busy":
 					c03RtpPubBusyPort(c, i, x.a == "tcp")
 				case "rtsprepeat":
